@@ -179,7 +179,7 @@ func drawCfg(t *rapid.T) vmx.Cfg {
 	c.NoBitwise = rapid.IntRange(0, 5).Draw(t, "nobit") == 0
 	c.DefSide = rapid.SampledFrom(defSides).Draw(t, "defside")
 	c.OpLimit = rapid.SampledFrom([]int{200, 30000, 30000}).Draw(t, "oplimit")
-	c.ParseLimit = rapid.SampledFrom([]uint64{0, 0, 2000, 10_000_000}).Draw(t, "parselimit")
+	c.ParseLimit = rapid.SampledFrom([]uint64{0, 0, 0, 300, 700, 1000, 1500, 2000, 3000, 5000, 10000, 10_000_000}).Draw(t, "parselimit")
 	c.Lang = rapid.IntRange(0, 2).Draw(t, "lang")
 	return c
 }
@@ -286,5 +286,46 @@ func TestReplay(t *testing.T) {
 			}
 			return checkCase(c, s)
 		},
+	})
+}
+
+// FuzzC01 (thorough tier): coverage-guided search over raw bytes: byte 0-1 configuration, byte 2 call kind, rest source;
+// a 0x00 byte splits the rest into up to three steps on the same VM.
+func FuzzC01(f *testing.F) {
+	seeds := []string{"2d6", "b(1.5)", "[].rand()", "x='abc'; x[5]", "[1,2].kh('a')", "-3*[1,2,3]", "1 || ", "func g() { d }; g()", "&a = 2d; a",
+		"x={}; x.a=x; x", "`{% if 1 { x = `{1}` } %}`", "i=0; while i<25 { i=i+1; if 1 { continue } }", "^st力量60敏捷70", "[x,2]\n[x,2]", "1 ? 2,{'a", "3a2m100", "3c6", "99999999999999999999d6"}
+	for _, sd := range seeds {
+		f.Add([]byte("\xff\x00\x00" + sd))
+		f.Add([]byte("\x0f\x01\x01" + sd + "\x00" + sd))
+	}
+	_, s := rt.FuzzRun("C01", "history")
+	f.Fuzz(func(t *testing.T, data []byte) {
+		if len(data) < 4 || len(data) > 600 {
+			return
+		}
+		b0, b1, b2 := data[0], data[1], data[2]
+		c := Case{Cfg: vmx.Cfg{CoC: b0&1 != 0, WoD: b0&2 != 0, Fate: b0&4 != 0, DC: b0&8 != 0, IgnoreDiv0: b0&16 != 0,
+			NoStmts: b0&32 != 0, NoNDice: b0&64 != 0, NoBitwise: b0&128 != 0, OpLimit: 30000, SeedHex: "000102030405060708090a0b0c0d0e0f"}}
+		switch b1 % 3 {
+		case 1:
+			c.Cfg.Mode = "min"
+		case 2:
+			c.Cfg.Mode = "max"
+		}
+		if b1&4 != 0 {
+			c.Cfg.OpLimit = 200
+		}
+		if b1&8 != 0 {
+			c.Cfg.ParseLimit = 2000
+		}
+		c.Cfg.DefSide = defSides[int(b1>>4)%len(defSides)]
+		calls := []string{"Run", "ParseRun", "ParseRunRun", "ParseOnly", "RunExpr"}
+		parts := strings.SplitN(string(data[3:]), "\x00", 3)
+		for i, p := range parts {
+			c.Steps = append(c.Steps, Step{Call: calls[(int(b2)+i)%len(calls)], Src: p, Flag: b2&16 != 0})
+		}
+		if fl := checkCase(c, s); fl != nil && s.FuzzReport(fl) {
+			t.Fatalf("C01 %s\nobserved: %s\ncase: %s", fl.Signature, fl.Observed, fl.Case)
+		}
 	})
 }
